@@ -26,6 +26,56 @@ CLAIMED = {
             "through the simulator), no panic, no deadlock.",
             "A goroutine blocked for ever is detected as: no task schedulable, fake clock advanced by 72h, task still blocked.",
             "deterministic simulation: seeded scheduler, stalled-node fault, exact task accounting", "4 C03"),
+    "C04": ("exploration",
+            "2-8 client tasks run generated histories of every Broker call over a small id space while others Send. (a) the race binary runs the "
+            "same seeds: the simulator hides its own synchronisation from the race detector, so any report is a race of the library under a fully "
+            "controlled schedule; (b) the plain binary records invoke/return stamps and checks the history (registry calls, getters, one read per "
+            "pipeline key and Send, plus a sequential probe suffix) for linearizability against a sequential registry model with porcupine.",
+            "porcupine Unknown (timeout) is counted, never reported; histories are kept short (<= 22 calls).",
+            "deterministic simulation: seeded scheduler + race detector under serialised schedules + porcupine linearizability", "4 C04"),
+    "C05": ("exploration",
+            "Generated histories of (mostly malformed) registrations executed under the simulator; acceptance is compared with the statement's predicate "
+            "(reference model); for every failing call the observable state (IsAnyPipelineRegistered, deliveries of probe Sends, removability of every "
+            "node on a replayed copy) is compared before/after; concurrently, Sends overlapping failing registrations are checked by linearizability.",
+            "Pure input clauses (the predicate) are decided by seeded generation inside the simulated runs; the schedule-dependent clause is the "
+            "concurrent observer.",
+            "deterministic simulation: seeded histories + model oracle + concurrent observer (porcupine)", "4 C05"),
+    "C06": ("exploration",
+            "Histories up to 60 calls over {RegisterNode, RegisterPipeline incl. overwrite and duplicate ids, RemovePipeline, RemovePipelineAndNodes, "
+            "RemoveNode} on 2 types x 3 pipeline ids x 4 node ids with Close faults; after every call the outcome and the Close counts of every node "
+            "object are compared with a model in which 'in use' means 'listed by a registered pipeline'; at the end every id is probed on a replayed copy.",
+            "Depth-7 exhaustive enumeration is not done (that is model checking); short histories are drawn with probability 1/3.",
+            "deterministic simulation: seeded call histories + Close fault injection + reference model", "4 C06"),
+    "C07": ("exploration",
+            "Policy sequences (allow/deny/default/invalid) interleaved with removals against the model, probe Sends after calls; concurrently, "
+            "overwriting registrations (each version has a unique marker node) race with Sends and the per-pipeline deliveries are checked for "
+            "linearizability (exactly one version, the new one after the overwrite returned) with porcupine.",
+            "sync.Map.Range is emulated at per-visit granularity (any behaviour its contract allows).",
+            "deterministic simulation: seeded scheduler over sync.Map range/store + porcupine", "4 C07"),
+    "C11": ("exploration",
+            "Sequential histories up to 200 steps over events (3 ids, flush), non-gateable, no-id, clock advances around the expiry boundary, FlushAll, "
+            "Close, with composition / send / gateable-composite faults, checked step by step against a GateModel; concurrent senders (2-4 tasks, "
+            "FlushAll in between) are checked for conservation (each accepted event in exactly one composition, same id, real-time order) and panics.",
+            "Without a Broker a group that is neither composed nor visibly dropped makes the model uncertain; such runs are not judged further (counted).",
+            "deterministic simulation: seeded histories, controlled clock, fault injection at the Sender/ComposeFrom seams, model oracle", "4 C11"),
+    "C12": ("exploration",
+            "Every Broker operation is driven while nodes call Send on the same Broker from Process, Close or Reopen, with the real gated.Filter wired "
+            "to the Broker (0-3 pending groups, expired or not) and 0-2 concurrent writers queueing on the lock. Mutexes are modelled (writer "
+            "preference included), so a self-deadlock is detected exactly, at the step it forms, with lock, owner and waiting site.",
+            "Bounded liveness: every call returns within the step budget.",
+            "deterministic simulation: modelled RWMutex gives exact deadlock detection under seeded schedules", "4 C12"),
+    "C17": ("exploration",
+            "The C11 histories with up to 5 simultaneously open groups and clock advances at expiry-1ns, expiry, expiry+1ns: after every successful "
+            "Process no group with expiry < T may remain (each must have been composed and sent, oldest first), FlushAll/Close must emit every group "
+            "exactly once; the history ends with one flush probe per id that reveals what is still withheld.",
+            "Controlled clock through Filter.NowFunc, so boundary instants are exact.",
+            "deterministic simulation: seeded histories with clock advances at the expiry boundary + GateModel", "4 C17"),
+    "C20": ("exploration",
+            "Registry states reached by generated histories (several types, shared nodes, removed and overwritten pipelines); Broker.Reopen is called "
+            "with no failing node and with each single node of a registered pipeline failing in turn (chosen from the tape); every node object bound "
+            "into a registered pipeline must be reopened, a failure must be carried by the returned error.",
+            "Iteration order over event types is a seeded choice (map range rewritten).",
+            "deterministic simulation: seeded registry histories + single-node fault injection", "4 C20"),
 }
 
 PENDING = ["C04", "C05", "C06", "C07", "C08", "C09", "C10", "C11", "C12", "C13", "C14", "C15", "C16", "C17", "C18", "C19", "C20"]
